@@ -291,6 +291,10 @@ func runStress(e *env, c stCase) (res stResult) {
 		}
 	}
 	extra, _ := settle(base, nil, 1500*time.Millisecond)
+	if len(extra) > 0 {
+		// a leak never goes away, a teardown on a starved machine does: only what is still there much later counts
+		extra, _ = settle(base, nil, 12*time.Second)
+	}
 	res.Leak = extra
 	res.Subs = len(subs)
 	if linkable {
@@ -299,7 +303,7 @@ func runStress(e *env, c stCase) (res stResult) {
 		res.Unlinked = len(subs)
 	}
 	for _, sb := range subs {
-		if !sb.up.IsClosed(300 * time.Millisecond) {
+		if !sb.up.IsClosed(300*time.Millisecond) && !sb.up.IsClosed(6*time.Second) {
 			res.UpOpen++
 		}
 		res.Emitted += len(sb.emitted)
